@@ -255,7 +255,10 @@ def generate(rng, tier):
             "conf_subclass": rng.random() < 0.1,
             # the application route: cli_tools.std_app_configure(args, syntax_amends=<explicit configuration>) builds
             # the configuration and makes it the global one
-            "via_app": rng.choice(["dict", "list1"]) if rng.random() < 0.12 else None}
+            "via_app": rng.choice(["dict", "list1"]) if rng.random() < 0.12 else None,
+            # the application declares its syntax ids once, as members of a `class Synt(str, Enum)`, and uses the
+            # members wherever an id goes (keys of flat description dicts, look-ups): each IS a str equal to the id
+            "keys_as": "strenum" if rng.random() < 0.06 else None}
 
 
 def simplify(trace):
@@ -303,6 +306,29 @@ def simplify(trace):
 # --------------------------------------------------------------------------
 # execution
 
+_ID_MEMBERS = {}
+
+
+def id_member(sid):
+    """the id as a member of the caller's (str, Enum) class"""
+    if sid not in _ID_MEMBERS:
+        import enum
+        _ID_MEMBERS[sid] = enum.Enum("Synt", {"ID": sid}, type=str).ID
+    return _ID_MEMBERS[sid]
+
+
+def caller_keys(trace, flat_items):
+    """a flat {id: description} dict as the caller writes it"""
+    if trace.get("keys_as") == "strenum" and all(isinstance(v, str) for v in flat_items.values()):
+        return {id_member(k): v for k, v in flat_items.items()}
+    return dict(flat_items)
+
+
+def model_init(trace):
+    """the explicit configuration as the reference resolver reads it (plain string ids)"""
+    return real_init(dict(trace, keys_as=None))
+
+
 def real_init(trace):
     """the explicit configuration as handed to the constructor: aliased groups are the SAME dict object"""
     init = trace.get("init")
@@ -312,6 +338,8 @@ def real_init(trace):
     for src, dst in trace.get("init_alias") or ():
         if isinstance(init.get(src), dict) and dst not in init:
             init[dst] = init[src]
+    if trace.get("keys_as") == "strenum" and not (trace.get("init_alias") or ()):
+        init = caller_keys(trace, init)
     return init
 
 
@@ -345,6 +373,7 @@ class World:
         self.quarantine = set()
         self.used = []          # components registered in M (names)
         self.synced = []        # [(name, palette)]
+        self.keys_as_enum = trace.get("keys_as") == "strenum"
         self.orphans = []       # palettes whose configuration object the caller dropped: [(palette, registry)]
         self.held = []          # palettes obtained earlier and kept: [(palette, comp name | None, {id: style then})]
         self.delivered_log = []  # canonical record of what M received: [("comp", name) | ("batch", items)]
@@ -490,7 +519,8 @@ class World:
             want = reg.style(sid, nc)
             if sid in reg.items and not reg.is_resolved(sid):
                 self.stats["unresolved_seen"] += 1
-            self.compare(self.decode(conf.get_color(sid), "get_color", sid), want, "get_color", sid)
+            key = id_member(sid) if (self.keys_as_enum and len(sid) % 3 == 0) else sid
+            self.compare(self.decode(conf.get_color(key), "get_color", sid), want, "get_color", sid)
         # palettes obtained from the configuration reflect its current state
         gp = conf.get_palette()
         for sid in ids[:: max(1, len(ids) // 6)] + [x for x in ids if x in ODD_IDS]:
@@ -656,7 +686,7 @@ def full_set_is_acyclic(world, trace):
     """guard: the generated set must be acyclic also together with the real defaults"""
     reg = Registry()
     try:
-        reg.deliver(flatten(real_init(trace) or {}))
+        reg.deliver(flatten(model_init(trace) or {}))
         reg.deliver(world.builtin_flat)
         for op in trace["ops"]:
             if op["op"] == "use" and (op["comp"] in REAL or op["comp"] in world.comp_spec):
@@ -693,11 +723,11 @@ def execute(trace, rng):
         else:
             M = w.sut("ColorsConfig(init)", w.conf_cls, real_init(trace), no_color=nc)
         regM = Registry()
-        regM.deliver(flatten(real_init(trace) or {}))
+        regM.deliver(flatten(model_init(trace) or {}))
         before = {sid: regM.is_resolved(sid) for sid in regM.items}
         regM.deliver(w.builtin_flat)
         w.count_late(regM, before)
-        w.stats["explicit_wins"] += sum(1 for sid in flatten(real_init(trace) or {}) if sid in w.builtin_flat)
+        w.stats["explicit_wins"] += sum(1 for sid in flatten(model_init(trace) or {}) if sid in w.builtin_flat)
         # the import-time global configuration: built-ins only
         G = color.get_global_colors_config()
         regG = Registry()
@@ -730,7 +760,7 @@ def execute(trace, rng):
             elif k == "batch":
                 before = {sid: regM.is_resolved(sid) for sid in regM.items}
                 w.stats["explicit_wins"] += sum(1 for sid in op["items"] if sid in regM.items)
-                w.sut("add_new_items", M.add_new_items, dict(op["items"]), "user")
+                w.sut("add_new_items", M.add_new_items, caller_keys(trace, op["items"]), "user")
                 regM.deliver(op["items"])
                 w.count_late(regM, before)
                 w.delivered_log.append(["batch", op["items"]])
@@ -823,7 +853,7 @@ def execute(trace, rng):
             elif k == "orphan_palette":
                 conf2 = w.sut("ColorsConfig(init) (temporary)", w.conf_cls, real_init(trace), no_color=nc)
                 reg2 = Registry()
-                reg2.deliver(flatten(real_init(trace) or {}))
+                reg2.deliver(flatten(model_init(trace) or {}))
                 reg2.deliver(w.builtin_flat)
                 pal2 = w.sut("get_palette", conf2.get_palette)
                 del conf2
@@ -872,7 +902,7 @@ def execute(trace, rng):
     st["ref_requests"] = rw.ref_requests()
     nontrivial = bool(w.stats["late_resolutions"] or w.stats["explicit_wins"])
     h = hashlib.blake2b(json.dumps([trace["init"], trace.get("init_alias"), trace.get("conf_subclass"),
-                                    trace["components"], trace["ops"], trace.get("no_color"), trace.get("via_app")],
+                                    trace["components"], trace["ops"], trace.get("no_color"), trace.get("via_app"), trace.get("keys_as")],
                                    sort_keys=True).encode(), digest_size=8).hexdigest()
     status.update({"digest": log.digest(), "stats": st, "nontrivial": nontrivial, "case": h,
                    "sim_steps": len(trace["ops"])})
